@@ -45,14 +45,13 @@ Acceptable(v) == v # "reject"
 TInit == /\ tid \in 1..Len(Recs) /\ l = 1
          /\ cid = 0 /\ pc = "trace" /\ blk = <<>> /\ extra = <<>> /\ added = <<>> /\ bm = 0 /\ bk = 0 /\ bi = 0 /\ pidx = 0 /\ hit = <<>> /\ pj = 0
          /\ ncid = 0 /\ npc = "trace" /\ ntbl = <<>> /\ nord = <<>> /\ nq = 0
-TNext == /\ l = 1
-         /\ Acceptable(BVerdict(R)) /\ Acceptable(NBVerdict(R))
-         /\ l' = 2 /\ tid' = tid
+\* one step per record; the verdicts are evaluated in the invariant Mark (TLC caches sub-expressions there)
+TNext == /\ l = 1 /\ l' = 2 /\ tid' = tid
          /\ UNCHANGED <<vars, nvars>>
 TSpec == TInit /\ [][TNext]_<<vars, nvars, tid, l>>
-Mark == (l = 2) => TLCSet(1, TLCGet(1) \cup {tid})
-Note == (l = 1) => LET b == BVerdict(R) n == NBVerdict(R) IN
-                     IF b # "ok" \/ n # "ok" THEN PrintT(<<"VERDICT", ToJson(<<ToString(tid), b, n>>)>>) ELSE TRUE
+Mark == (l = 2) => LET b == BVerdict(R) n == NBVerdict(R) IN
+                     /\ (IF b # "ok" \/ n # "ok" THEN PrintT(<<"VERDICT", ToJson(<<ToString(tid), b, n>>)>>) ELSE TRUE)
+                     /\ (IF Acceptable(b) /\ Acceptable(n) THEN TLCSet(1, TLCGet(1) \cup {tid}) ELSE TRUE)
 Accepted == IF TLCGet(1) = 1..Len(Recs) THEN TRUE
             ELSE (PrintT(<<"REJECTED", ToJson(SetToSeq((1..Len(Recs)) \ TLCGet(1)))>>) /\ FALSE)
 =============================================================================
